@@ -362,6 +362,42 @@ func runC09(r *Run) {
 	}
 	r.Rule("R16", "see C08 R3 (imported): the one place where Haqq code calls the SDK staking keeper's Delegate directly (the 'stake' option of ConvertIntoVestingAccount, no unvested-coins check) bonds exactly what the *new grant's own* schedule has vested at the block time — ReadSchedule over the message's vesting periods — and not what the stored account reports as vested after the merge: the account's vested coins include earlier grants' coins that may have left the balance, so unvested coins of the new grant would be bonded and a later clawback cannot be paid")
 	r.Import("R16/C08.", []string{"R3"}, runC08)
+	r.Rule("R19", "see C08 R8 (imported): 'a clawback keeps every vested coin, still subject to its lockup' — the one way out of the account type, ConvertVestingAccount, is refused while the schedule still locks anything (HasLockedCoins) or anything is unvested, not merely while the bank would refuse a transfer (LockedCoins subtracts what is delegated): delegate the vested-but-locked coins, have the rest clawed back, convert — and the lockup is gone")
+	r.Import("R19/C08.", []string{"R8"}, runC08)
+	r.Rule("R20", "FLOW.the-grant's-own-start-reaches-the-merge: the period lengths of a grant are relative to the grant's start, and addGrant aligns the two schedules itself (R6); every caller therefore hands addGrant, as the grant's start, exactly the Unix() of the time it was given — not a value chosen between that and the account's start (a phi), not arithmetic on it: clamping a later grant start to the account's start moves every lockup and vesting event of the new grant earlier by the age of the account")
+	{
+		n := 0
+		for _, fn := range r.P.Funcs {
+			if !isHaqqPath(fnPkgPath(fn)) || isTestSupport(r.P, fn) || fn.Synthetic != "" {
+				continue
+			}
+			idx := 0
+			eachCall(fn, func(ci CallInfo) {
+				if ci.Name != "addGrant" || !pathHasSuffix(ci.PkgPath, "x/vesting/keeper") {
+					return
+				}
+				args := ci.Instr.Common().Args
+				// receiver, ctx, account, grantStartTime, …
+				var start ssa.Value
+				for _, a := range args {
+					if b, ok := a.Type().Underlying().(*types.Basic); ok && b.Kind() == types.Int64 {
+						start = a
+						break
+					}
+				}
+				if start == nil {
+					return
+				}
+				idx++
+				n++
+				c, isCall := start.(*ssa.Call)
+				ok := isCall && callInfo(c).Name == "Unix" && callInfo(c).Recv == "Time"
+				r.Check(ok, "R20", fmt.Sprintf("%s#addGrant-%d-start-is-the-given-time", fnID(fn), idx), r.P.Pos(instrPos(ci.Instr)), "the start argument is <time>.Unix() itself",
+					"the grant start handed to addGrant is not the Unix() of the time the caller was given (it is chosen or computed): an account 1000 s old receives, through ConvertIntoVestingAccount{Merge} or a liquid-vesting redeem, a grant starting now with one event at +1000 s — at +10 s LockedCoins and GetVestingCoins are empty instead of 1000aISLM and the bank lets 600 of them go")
+			})
+		}
+		r.Floor("R20", "calls of addGrant", n, 2)
+	}
 	r.Rule("R6", "FLOW.endtime (same rule code as C08 R6): every store to a vesting account's EndTime depends on both the lockup and the vesting schedule — ReadSchedule returns the full amount from EndTime on, so an end taken from one schedule ends the other's lock early (the account is no longer valid)")
 	checkEndTimeStores(r, "R6")
 	// R4
